@@ -6,24 +6,13 @@
 From Coq Require Import ZArith List Bool Lia.
 From CSS Require Import Forest.Spec Spec.Grouping Spec.GroupingWf Spec.GroupingFacts Spec.GroupingProofs
   Spec.GroupingProd.
+From CSS Require Export Spec.GroupingProdKeys.
 Import ListNotations.
 Open Scope Z_scope.
 Notation fkids := Forest.Spec.kids.
 
-Definition bkey (r : brule) : fkey := mkkey (b_cls r) (combine (b_ch r) (b_sh r)).
-Definition shift1 (r : brule) : Z := hd 0 (b_sh r).
-Definition zsum (l : list Z) : Z := fold_right Z.add 0 l.
-(* the key of a rule as the constructor keeps it; a path rule: (first class, [(last child, sum of shifts)]) *)
-Definition gkey (g : grule) : fkey :=
-  match g with
-  | GB r => bkey r
-  | GP r0 rs => mkkey (b_cls r0)
-                  (match b_ch (last rs r0) with
-                   | [y] => [(y, zsum (map shift1 (r0 :: rs)))]
-                   | _ => []
-                   end)
-  end.
-Definition keys_of (d : dict) : list fkey := map (fun kv => gkey (snd kv)) d.
+(* bkey, shift1, zsum, gkey, keys_of, lazy1, R0, R1, shifts_okb: Spec/GroupingProdKeys.v (definitions only, shared
+   with the executable run_spec) *)
 
 Section Link.
 Variable is_empty : nat -> bool.
@@ -36,17 +25,16 @@ Hypothesis shifts_ok : forall k r, In (k, GB r) d0 -> length (b_sh r) = length (
 
 Notation nh := (nh root d0).
 Definition kept (c : nat) : Prop := mem c nh = true.
-(* the lazily added empty rules *)
-Definition lazy1 : dict := filter (fun kv => negb (dmem (fst kv) d0)) d1.
-Definition R0 : list fkey := keys_of (d0 ++ lazy1).
-Definition R1 : list fkey := keys_of d1.
+Notation lazy1 := (GroupingProdKeys.lazy1 d0 d1).
+Notation R0 := (GroupingProdKeys.R0 d0 d1).
+Notation R1 := (GroupingProdKeys.R1 d1).
 
 Lemma d1_nodup : NoDup (map fst d1).
 Proof. destruct G1 as (H & _). exact H. Qed.
 
 Lemma lazy_entry k g : In (k, g) lazy1 -> dget k d0 = None /\ g = empty_rule k /\ dget k d1 = Some g.
 Proof.
-  unfold lazy1. intros H. apply filter_In in H as [Hin Hm]. cbn [fst] in Hm.
+  unfold GroupingProdKeys.lazy1. intros H. apply filter_In in H as [Hin Hm]. cbn [fst] in Hm.
   apply negb_true_iff in Hm. apply dmem_false in Hm.
   pose proof (In_dget _ _ _ d1_nodup Hin) as Hg. destruct G1 as (_ & _ & _ & _ & _ & _ & Hs & _).
   destruct (Hs _ _ Hg) as (_ & [(r0 & rs & _ & H0 & _)|[(r & _ & _ & H0)|(_ & -> & _)]]); try congruence. auto.
@@ -54,7 +42,7 @@ Qed.
 
 Lemma R0_entry k : In k R0 -> exists c g, In (c, g) (d0 ++ lazy1) /\ k = gkey g /\ parent k = c.
 Proof.
-  unfold R0, keys_of. intros H. apply in_map_iff in H as ([c g] & <- & Hin). cbn [snd].
+  unfold GroupingProdKeys.R0, keys_of. intros H. apply in_map_iff in H as ([c g] & <- & Hin). cbn [snd].
   exists c, g. csplit; auto. apply in_app_or in Hin as [Hin|Hin].
   - apply (d0_In is_empty root d0 WF0) in Hin. destruct (d0_plain is_empty root d0 WF0 _ _ Hin) as (r & -> & Hr). exact Hr.
   - destruct (lazy_entry _ _ Hin) as (_ & -> & _). reflexivity.
@@ -84,10 +72,10 @@ Proof.
   - cbn [map zsum fold_right]. replace (shift1 r + 0) with (shift1 r) by lia.
     apply (d0_In is_empty root d0 WF0) in H.
     change (b_cls r) with (parent (bkey r)). apply chain_one; [|apply bkey_unary; auto].
-    unfold R0, keys_of. apply in_map_iff. exists (b_cls r, GB r). split; auto. apply in_or_app. left; auto.
+    unfold GroupingProdKeys.R0, keys_of. apply in_map_iff. exists (b_cls r, GB r). split; auto. apply in_or_app. left; auto.
   - cbn [map zsum fold_right]. apply (d0_In is_empty root d0 WF0) in H.
     change (b_cls r) with (parent (bkey r)). apply chain_cons with (h := h); auto.
-    + unfold R0, keys_of. apply in_map_iff. exists (b_cls r, GB r). split; auto. apply in_or_app. left; auto.
+    + unfold GroupingProdKeys.R0, keys_of. apply in_map_iff. exists (b_cls r, GB r). split; auto. apply in_or_app. left; auto.
     + apply bkey_unary; auto.
     + unfold kept. rewrite Hh. discriminate.
 Qed.
@@ -106,7 +94,7 @@ Lemma grouped_sound : forall k1, In k1 R1 ->
   (In k1 R0 /\ forall c s, In (c, s) (fkids k1) -> kept c) \/
   (exists ks n S, chain R0 kept ks (parent k1) n S /\ kept n /\ fkids k1 = [(n, S)]).
 Proof.
-  intros k1 H. unfold R1, keys_of in H. apply in_map_iff in H as ([c g] & <- & Hin). cbn [snd].
+  intros k1 H. unfold GroupingProdKeys.R1, keys_of in H. apply in_map_iff in H as ([c g] & <- & Hin). cbn [snd].
   pose proof (In_dget _ _ _ d1_nodup Hin) as Hg.
   destruct G1 as (_ & _ & _ & _ & _ & Hpath & Hs & _).
   destruct (Hs _ _ Hg) as (Hn & [(r0 & rs & -> & H0 & He)|[(r & -> & He & H0)|(H0 & -> & Hem)]]).
@@ -114,13 +102,13 @@ Proof.
     rewrite Hg in Hg'. injection Hg' as <-. rewrite (path_key _ _ _ _ Hc). cbn [parent Forest.Spec.kids].
     eexists _, y, _. csplit; [apply (fchain_chain _ _ _ Hc)|exact Hyn|reflexivity].
   - left. split.
-    + unfold R0, keys_of. apply in_map_iff. exists (c, GB r). split; auto. apply in_or_app. left.
+    + unfold GroupingProdKeys.R0, keys_of. apply in_map_iff. exists (c, GB r). split; auto. apply in_or_app. left.
       apply (d0_In is_empty root d0 WF0). exact H0.
     + intros x s Hx. apply kids_combine_in in Hx. destruct (noneq_nh is_empty root d0 WF0 _ _ H0 He) as [_ Hk].
       apply Hk. exact Hx.
   - left. split.
-    + unfold R0, keys_of. apply in_map_iff. exists (c, empty_rule c). split; auto. apply in_or_app. right.
-      unfold lazy1. apply filter_In. split; auto. cbn [fst]. apply negb_true_iff. apply dmem_false. exact H0.
+    + unfold GroupingProdKeys.R0, keys_of. apply in_map_iff. exists (c, empty_rule c). split; auto. apply in_or_app. right.
+      unfold GroupingProdKeys.lazy1. apply filter_In. split; auto. cbn [fst]. apply negb_true_iff. apply dmem_false. exact H0.
     + intros x s [].
 Qed.
 
@@ -136,14 +124,14 @@ Proof.
     + right. destruct (Hpath _ _ Hin Ee Hk) as (rs & y & Hg & Hch & Hyn & _).
       pose proof (fchain_chain _ _ _ Hch) as Hc'. cbn [map] in Hc'.
       eexists _, y, _. csplit; [exact Hc'|exact Hyn|].
-      unfold R1, keys_of. apply in_map_iff. exists (c, GP r rs). split; [|apply dget_In; exact Hg].
+      unfold GroupingProdKeys.R1, keys_of. apply in_map_iff. exists (c, GP r rs). split; [|apply dget_In; exact Hg].
       cbn [snd]. apply (path_key _ _ _ _ Hch).
     + left. split.
-      * unfold R1, keys_of. apply in_map_iff. exists (c, GB r). split; auto. apply dget_In. apply Hkeep; auto.
+      * unfold GroupingProdKeys.R1, keys_of. apply in_map_iff. exists (c, GB r). split; auto. apply dget_In. apply Hkeep; auto.
       * intros x s Hx. apply kids_combine_in in Hx. destruct (noneq_nh is_empty root d0 WF0 _ _ Hin Ee) as [_ Hkk].
         apply Hkk. exact Hx.
   - destruct (lazy_entry _ _ Hin) as (_ & -> & Hg). left. split; [|intros x s []].
-    unfold R1, keys_of. apply in_map_iff. exists (c, empty_rule c). split; auto. apply dget_In. exact Hg.
+    unfold GroupingProdKeys.R1, keys_of. apply in_map_iff. exists (c, empty_rule c). split; auto. apply dget_In. exact Hg.
 Qed.
 
 (* a class that is not hidden pumps w.r.t. the grouped rules iff it pumps w.r.t. the ungrouped ones *)
